@@ -22,10 +22,13 @@ noncomputable instance fieldScalarOps : ScalarOps α where
   floor x := ((⌊x⌋ : ℤ) : α)
   nextPow2 x := (2 : α) ^ (Int.clog 2 x)
   trunc x := if 0 ≤ x then ⌊x⌋ else ⌈x⌉
+  roundHE x := if x - ⌊x⌋ < 1 / 2 then ⌊x⌋ else if 1 / 2 < x - ⌊x⌋ then ⌊x⌋ + 1 else if ⌊x⌋ % 2 = 0 then ⌊x⌋ else ⌊x⌋ + 1
 
 @[simp] theorem ofInt_eq (n : Int) : (ofInt n : α) = (n : α) := rfl
 @[simp] theorem sfloor_eq (x : α) : (ScalarOps.floor x : α) = ((⌊x⌋ : ℤ) : α) := rfl
 @[simp] theorem snextPow2_eq (x : α) : (ScalarOps.nextPow2 x : α) = (2 : α) ^ (Int.clog 2 x) := rfl
 theorem strunc_eq (x : α) : (ScalarOps.trunc x : Int) = if 0 ≤ x then ⌊x⌋ else ⌈x⌉ := rfl
+theorem sroundHE_eq (x : α) : (ScalarOps.roundHE x : Int) =
+    if x - ⌊x⌋ < 1 / 2 then ⌊x⌋ else if 1 / 2 < x - ⌊x⌋ then ⌊x⌋ + 1 else if ⌊x⌋ % 2 = 0 then ⌊x⌋ else ⌊x⌋ + 1 := rfl
 
 end
